@@ -17,17 +17,19 @@ import (
 // object identity; hand-out of a held object, release of an object not held and double release
 // are violations.
 type ledger struct {
-	inner    restful.CompressorProvider
-	mu       sync.Mutex
-	held     map[interface{}]string
-	seen     map[interface{}]bool
-	acquired int
-	released int
-	issues   []string
+	inner restful.CompressorProvider
+	mu    sync.Mutex
+	held  map[interface{}]string
+	seen  map[interface{}]bool
+	// inProvider: objects that are inside a Release call of the real provider right now
+	inProvider map[interface{}]bool
+	acquired   int
+	released   int
+	issues     []string
 }
 
 func newLedger(inner restful.CompressorProvider) *ledger {
-	return &ledger{inner: inner, held: map[interface{}]string{}, seen: map[interface{}]bool{}}
+	return &ledger{inner: inner, held: map[interface{}]string{}, seen: map[interface{}]bool{}, inProvider: map[interface{}]bool{}}
 }
 
 func (l *ledger) acq(o interface{}, kind string) {
@@ -57,13 +59,29 @@ func (l *ledger) rel(o interface{}, kind string) {
 type tripwire struct {
 	l    *ledger
 	kind string
+	obj  interface{}
 }
 
 func (t *tripwire) Write(p []byte) (int, error) {
 	t.l.mu.Lock()
-	t.l.issues = append(t.l.issues, fmt.Sprintf("a released %s was used again (%d bytes written through it after its release)", t.kind, len(p)))
+	// (what the provider itself does with an object it owns again - e.g. closing it once more
+	// inside Release - is its own business)
+	if !t.l.inProvider[t.obj] {
+		t.l.issues = append(t.l.issues, fmt.Sprintf("a released %s was used again (%d bytes written through it after its release)", t.kind, len(p)))
+	}
 	t.l.mu.Unlock()
 	return len(p), nil
+}
+
+// handBack runs the real provider's release with the object marked as being in the provider's hands.
+func (l *ledger) handBack(o interface{}, release func()) {
+	l.mu.Lock()
+	l.inProvider[o] = true
+	l.mu.Unlock()
+	release()
+	l.mu.Lock()
+	delete(l.inProvider, o)
+	l.mu.Unlock()
 }
 
 func (l *ledger) AcquireGzipWriter() *gzip.Writer {
@@ -79,8 +97,8 @@ func (l *ledger) AcquireGzipWriter() *gzip.Writer {
 // resets every object it acquires, so correct code is unaffected.
 func (l *ledger) ReleaseGzipWriter(w *gzip.Writer) {
 	l.rel(w, "gzip.Writer")
-	w.Reset(&tripwire{l, "gzip.Writer"})
-	l.inner.ReleaseGzipWriter(w)
+	w.Reset(&tripwire{l, "gzip.Writer", w})
+	l.handBack(w, func() { l.inner.ReleaseGzipWriter(w) })
 }
 func (l *ledger) AcquireGzipReader() *gzip.Reader {
 	r := l.inner.AcquireGzipReader()
@@ -99,8 +117,8 @@ func (l *ledger) AcquireZlibWriter() *zlib.Writer {
 }
 func (l *ledger) ReleaseZlibWriter(w *zlib.Writer) {
 	l.rel(w, "zlib.Writer")
-	w.Reset(&tripwire{l, "zlib.Writer"})
-	l.inner.ReleaseZlibWriter(w)
+	w.Reset(&tripwire{l, "zlib.Writer", w})
+	l.handBack(w, func() { l.inner.ReleaseZlibWriter(w) })
 }
 
 // report returns the ledger's verdict after all threads finished.
